@@ -57,12 +57,151 @@ def random_labels(rng, maxq, count):
     return labs
 
 
+# qubit indices around the 32/64/128-bit word boundaries (labels and outcome bits must be width independent)
+BOUNDARY = [0, 1, 2, 7, 8, 15, 16, 30, 31, 32, 33, 47, 62, 63, 64, 65, 66, 95, 96, 126, 127, 128, 129]
+
+
+def rich_labels(rng, count, pool=None, maxk=12):
+    """labels with large supports / indices on the word boundaries (unsorted, descending, …: a label is a set)"""
+    pool = pool or BOUNDARY
+    labs = []
+    for _ in range(count):
+        r = rng.random()
+        if r < 0.06:
+            labs.append([])
+            continue
+        k = rng.randint(1, min(len(pool), maxk))
+        idx = rng.sample(pool, k)
+        if rng.random() < 0.3:
+            idx.sort(reverse=True)
+        if r < 0.35:
+            p = rng.randint(1, 3)
+            labs.append([(i, p) for i in idx])
+        elif r < 0.55 and labs and labs[-1]:
+            # a near copy of the previous label (same Paulis on the shared qubits: lands in the same group)
+            prev = dict(labs[-1])
+            labs.append([(i, prev.get(i, rng.randint(1, 3))) for i in idx])
+        else:
+            labs.append([(i, rng.randint(1, 3)) for i in idx])
+    if labs and rng.random() < 0.3:
+        labs.append(list(rng.choice(labs)))
+    return labs
+
+
+LABEL_FORMS = ["int", "int", "enum", "str", "lists", "fromstr"]
+
+
+def mk_label(pairs, form):
+    """the documented ways of building a PauliLabel (ints, SinglePauli members, string, index/pauli lists)"""
+    from quri_parts.core.operator import PauliLabel, SinglePauli
+
+    pairs = list(pairs)
+    try:
+        if form == "enum":
+            return PauliLabel((i, SinglePauli(p)) for i, p in pairs)
+        if form in ("str", "fromstr") and pairs:
+            text = " ".join(f"{'XYZ'[p - 1]}{i}" for i, p in pairs)
+            if form == "fromstr":
+                return PauliLabel.from_str(text)
+            from quri_parts.core.operator import pauli_label
+
+            return pauli_label(text)
+        if form == "lists":
+            return PauliLabel.from_index_and_pauli_list([i for i, _ in pairs], [SinglePauli(p) for _, p in pairs])
+    except (AttributeError, ImportError):
+        pass
+    return PauliLabel(pairs)
+
+
+ITER_FORMS = ["list", "list", "tuple", "gen", "iter", "dictkeys", "set", "frozenset", "opkeys"]
+
+
+def as_iterable(plabs, form):
+    """(object handed to the real code, the order in which it yields the labels)"""
+    from quri_parts.core.operator import Operator
+
+    if form == "tuple":
+        return tuple(plabs), list(plabs)
+    if form == "gen":
+        return (p for p in plabs), list(plabs)
+    if form == "iter":
+        return iter(list(plabs)), list(plabs)
+    if form == "dictkeys":
+        d = dict.fromkeys(plabs)
+        return d.keys(), list(d)
+    if form == "set":
+        c = set(plabs)
+        return c, list(c)
+    if form == "frozenset":
+        c = frozenset(plabs)
+        return c, list(c)
+    if form == "opkeys":
+        o = Operator({p: 1.0 for p in plabs})
+        return o.keys(), list(o.keys())
+    return list(plabs), list(plabs)
+
+
+def lab_pairs(pl):
+    return [(int(i), int(p)) for i, p in pl]
+
+
+def gate_text(g):
+    """H3 / Sdag3 for a plain one-qubit gate, the full description otherwise (then it cannot match the model)"""
+    try:
+        t, c, prm = tuple(g.target_indices), tuple(g.control_indices), tuple(g.params)
+        if len(t) == 1 and not c and not prm and not tuple(g.pauli_ids):
+            return f"{g.name}{int(t[0])}"
+        return f"{g.name}(t={t},c={c},p={prm})"
+    except Exception as e:  # noqa: BLE001
+        return f"bad-gate:{type(e).__name__}"
+
+
+def outcome_bits(rng, label_pairs):
+    """outcome bitstrings of every width: narrower and wider than the support, single bits on / off the support, all ones"""
+    sup = [q for q, _ in label_pairs] or [0]
+    r = rng.random()
+    if r < 0.2:
+        return rng.getrandbits(rng.choice([1, 3, 8, 31, 32, 33, 63, 64, 65, 71, 130]))
+    if r < 0.35:
+        return 1 << rng.choice(sup)
+    if r < 0.45:
+        return 1 << (rng.choice(sup) + rng.choice([1, 31, 32, 64]))
+    if r < 0.6:
+        return (1 << (max(sup) + rng.choice([0, 1, 2, 40]))) - 1
+    if r < 0.8:
+        b = 0
+        for q in sup:
+            if rng.random() < 0.6:
+                b |= 1 << q
+        return b | (rng.getrandbits(140) & ~sum(1 << q for q in sup) if rng.random() < 0.5 else 0)
+    if r < 0.9:
+        return 0
+    return rng.getrandbits(max(sup) + 1)
+
+
+def parity_spec(label_pairs, bits) -> int:
+    """after the per-qubit basis change the Pauli is Z on its support: eigenvalue (-1)^{#support qubits measured 1}"""
+    return -1 if sum((int(bits) >> q) & 1 for q, _ in label_pairs) % 2 else 1
+
+
+def numpy_forms(rng, label_pairs, bits):
+    """the same outcome as a numpy integer, only where label mask and outcome fit the dtype"""
+    import numpy as np
+
+    top = max([q for q, _ in label_pairs] or [0])
+    out = []
+    for dt, width in ((np.int64, 63), (np.uint64, 64), (np.int32, 31), (np.uint8, 8), (np.intp, 63)):
+        if top < width and 0 <= bits < (1 << width):
+            out.append((dt.__name__, dt(bits)))
+    return out
+
+
 def correspond(ctx: Ctx):
     from quri_parts.core.measurement import (
         bitwise_commuting_pauli_measurement_circuit,
         bitwise_pauli_reconstructor_factory,
     )
-    from quri_parts.core.operator import Operator, PauliLabel
+    from quri_parts.core.operator import Operator
     from quri_parts.core.operator.grouping import (
         bitwise_pauli_grouping,
         individual_pauli_grouping,
@@ -83,11 +222,18 @@ def correspond(ctx: Ctx):
         except Exception as e:  # noqa: BLE001
             return ("err", type(e).__name__)
 
+    strategies = (("bitwise", bitwise_pauli_grouping), ("sorted", sorted_injection_grouping), ("individual", individual_pauli_grouping))
+
     N = ctx.n(120, 1500)
     collections = []
     for _ in range(N):
         maxq = rng.choice([3, 4, 8, 70])
         collections.append(random_labels(rng, maxq, rng.choice([0, 1, 2, 3, 5, 8, 15, 40])))
+    # large supports, indices on the 32/64/128-bit boundaries, near-copies
+    for _ in range(ctx.n(60, 700)):
+        pool = rng.choice([None, None, list(range(6)), list(range(28, 36)), list(range(60, 68)), list(range(0, 140, 7)),
+                           [0, 5, 200, 255, 256, 511, 512, 1023, 1024, 4096]])
+        collections.append(rich_labels(rng, rng.choice([1, 2, 3, 5, 8, 15, 30]), pool=pool))
     # all permutations of small collections: the properties must hold for every input order
     base = [[(0, 1), (1, 2)], [(0, 1), (2, 3)], [(0, 2), (2, 3)], [], [(1, 3)], [(0, 3), (1, 1)]]
     perms = list(itertools.permutations(base, 4 if ctx.quick() else 5))
@@ -95,60 +241,123 @@ def correspond(ctx: Ctx):
     for perm in perms[: ctx.n(60, 720)]:
         collections.append([list(x) for x in perm])
     for labs in collections:
-        plabs = [PauliLabel(l) for l in labs]
-        order = [[(int(i), int(p)) for i, p in pl] for pl in plabs]
-        for strat, fn in (("bitwise", bitwise_pauli_grouping), ("sorted", sorted_injection_grouping), ("individual", individual_pauli_grouping)):
+        plabs = [mk_label(l, rng.choice(LABEL_FORMS)) for l in labs]
+        for pl, l in zip(plabs, labs):
+            ctx.count("label_len", str(min(len(l), 9)))
+            if sorted(lab_pairs(pl)) != sorted(l):  # the constructors are not under test here, the model gets the real content
+                ctx.count("label_form_differs")
+        order = [lab_pairs(pl) for pl in plabs]
+        for strat, fn in strategies:
             real = safe(lambda: canon_groups_real(fn(plabs)))
             add(f"c07group {strat} | {enc_labels(order)}", real, "group:" + strat, order)
-        # Operator input (dict order; sorted injection sorts by |coef| descending – distinct magnitudes)
+        # every kind of iterable of labels (one-shot generators, tuples, sets, key views), in its own iteration order
+        form = rng.choice(ITER_FORMS)
+        for strat, fn in strategies:
+            obj, it_order = as_iterable(plabs, form)
+            io = [lab_pairs(pl) for pl in it_order]
+            real = safe(lambda: canon_groups_real(fn(obj)))
+            ctx.count("iterable_form", form)
+            add(f"c07group {strat} | {enc_labels(io)}", real, f"group:{strat}:{form}", io)
+        # Operator input: the bitwise strategy follows the key order, sorted injection the descending |coefficient| order
+        # (distinct magnitudes here; assignment ascending / descending / shuffled; int, float and complex coefficients)
+        uniq = list(dict.fromkeys(plabs))
+        mags = list(range(1, len(uniq) + 1))
+        mode = rng.choice(["asc", "desc", "shuffle", "shuffle"])
+        if mode == "desc":
+            mags.reverse()
+        elif mode == "shuffle":
+            rng.shuffle(mags)
+        ctx.count("coef_order", mode)
         op = Operator()
-        seen = set()
-        for pl in plabs:
-            if pl not in seen:
-                seen.add(pl)
-                op[pl] = (len(seen) + 0.5) * rng.choice([1, -1, 1j])
+        ctype = rng.choice(["int", "float", "complex", "mixed"])
+        for pl, m in zip(uniq, mags):
+            t = ctype if ctype != "mixed" else rng.choice(["int", "float", "complex"])
+            if t == "int":
+                op[pl] = m * rng.choice([1, -1])
+            elif t == "float":
+                op[pl] = (m + 0.5) * rng.choice([1.0, -1.0])
+            else:
+                op[pl] = m * rng.choice([1, -1, 1j, -1j]) * (2.0 if rng.random() < 0.5 else 1)
+        if ctype == "complex" or ctype == "mixed":
+            # the factor 2 above may create ties: make the magnitudes distinct again
+            seen_m = {}
+            for pl in list(op.keys()):
+                while abs(op[pl]) in seen_m:
+                    op[pl] = op[pl] * 3
+                seen_m[abs(op[pl])] = pl
         keys = list(op.keys())
-        korder = [[(int(i), int(p)) for i, p in pl] for pl in keys]
+        korder = [lab_pairs(pl) for pl in keys]
         add(f"c07group bitwise | {enc_labels(korder)}", safe(lambda: canon_groups_real(bitwise_pauli_grouping(op))), "group:bitwise-op", korder)
-        sorder = list(reversed(korder))  # |coef| grows with insertion index
+        add(f"c07group individual | {enc_labels(korder)}", safe(lambda: canon_groups_real(individual_pauli_grouping(op))), "group:individual-op", korder)
+        sorder = [lab_pairs(pl) for pl in sorted(keys, key=lambda k: -abs(op[k]))]
         add(f"c07group sorted | {enc_labels(sorder)}", safe(lambda: canon_groups_real(sorted_injection_grouping(op))), "group:sorted-op", sorder)
         # measurement circuits and reconstructors of the real groups
         try:
-            groups = list(bitwise_pauli_grouping(plabs))
+            groups = list(rng.choice([bitwise_pauli_grouping, sorted_injection_grouping])(plabs))
         except Exception:  # noqa: BLE001
             groups = []
+        rng.shuffle(groups)
         for g in groups[:4]:
-            gl = [[(int(i), int(p)) for i, p in pl] for pl in g]  # real iteration order
-            real = safe(lambda: [f"{x.name}{x.target_indices[0]}" for x in bitwise_commuting_pauli_measurement_circuit(g)])
+            gl = [lab_pairs(pl) for pl in g]  # real iteration order
+            real = safe(lambda: [gate_text(x) for x in bitwise_commuting_pauli_measurement_circuit(g)])
             add(f"c07meas {enc_labels(gl)}", real, "meas", gl)
-            for pl in list(g)[:3]:
-                bits = rng.getrandbits(rng.choice([3, 8, 71]))
-                l1 = [(int(i), int(p)) for i, p in pl]
-                rv = safe(lambda: int(bitwise_pauli_reconstructor_factory(pl)(bits)))
+            # the same group as another kind of collection (list / tuple / set / key view), any member order, repeats
+            members = list(g)
+            rng.shuffle(members)
+            if rng.random() < 0.3:
+                members.append(rng.choice(members))
+            cform = rng.choice(["list", "tuple", "set", "dictkeys"])
+            cobj, corder = as_iterable(members, cform)
+            cl = [lab_pairs(pl) for pl in corder]
+            real = safe(lambda: [gate_text(x) for x in bitwise_commuting_pauli_measurement_circuit(cobj)])
+            ctx.count("meas_collection", cform)
+            add(f"c07meas {enc_labels(cl)}", real, "meas:" + cform, cl)
+            # reconstructors: all factories of the group first, then the evaluations interleaved (no state shared between closures)
+            mem = list(g)
+            rng.shuffle(mem)
+            mem = mem[:3]
+            recs = [(lab_pairs(pl), safe(lambda: bitwise_pauli_reconstructor_factory(pl))) for pl in mem]
+            evals = [(k, outcome_bits(rng, recs[k][0])) for k in range(len(recs)) for _ in range(3)]
+            rng.shuffle(evals)
+            for k, bits in evals:
+                l1, (st, rec) = recs[k]
+                rv = safe(lambda: int(rec(bits))) if st == "ok" else ("err", rec)
                 add(f"c07rec {enc_label(l1)} | {bits}", rv, "rec", (l1, bits))
-                # the property on the real code alone (any register width): after the per-qubit basis change the Pauli is
-                # Z on its support, so its eigenvalue on outcome b is (-1)^{number of support qubits measured as 1}
-                spec = -1 if sum((bits >> q) & 1 for q, _ in l1) % 2 else 1
+                # the property on the real code alone (any register width)
+                spec = parity_spec(l1, bits)
                 if rv != ("ok", spec):
                     ctx.witness("reconstructor", f"reconstructor of {l1} on outcome bits {bits} gives {rv[1]}, the eigenvalue is {spec}",
                                 {"label": l1, "bits": bits})
+                if st == "ok" and rng.random() < 0.3:
+                    for tname, nb in numpy_forms(rng, l1, bits):
+                        nv = safe(lambda: int(rec(nb)))
+                        ctx.case(("rec-np", tname, repr(l1), bits), nontrivial=True)
+                        ctx.count("what", "rec-numpy")
+                        if nv != ("ok", spec):
+                            ctx.witness("reconstructor", f"reconstructor of {l1} on outcome {tname}({bits}) gives {nv[1]}, the eigenvalue is {spec}",
+                                        {"label": l1, "bits": bits, "bits_type": "numpy." + tname})
         # arbitrary (possibly non-commuting) sets for the circuit generator
         if labs:
             sub = rng.sample(plabs, min(len(plabs), rng.randint(1, 3)))
             fs = frozenset(sub)
-            gl = [[(int(i), int(p)) for i, p in pl] for pl in fs]
-            real = safe(lambda: [f"{x.name}{x.target_indices[0]}" for x in bitwise_commuting_pauli_measurement_circuit(fs)])
+            gl = [lab_pairs(pl) for pl in fs]
+            real = safe(lambda: [gate_text(x) for x in bitwise_commuting_pauli_measurement_circuit(fs)])
             add(f"c07meas {enc_labels(gl)}", real, "meas-any", gl)
+            gl = [lab_pairs(pl) for pl in sub]
+            real = safe(lambda: [gate_text(x) for x in bitwise_commuting_pauli_measurement_circuit(sub)])
+            add(f"c07meas {enc_labels(gl)}", real, "meas-any:list", gl)
         for _ in range(3):
             if len(plabs) >= 2:
                 a, b = rng.sample(range(len(plabs)), 2)
                 va, vb = pauli_label_to_bsv(plabs[a]), pauli_label_to_bsv(plabs[b])
                 add(f"c07commute {enc_label(order[a])} | {enc_label(order[b])}", ("ok", "true" if bsv_bitwise_commute(va, vb) else "false"), "commute", (order[a], order[b]))
                 add(f"c07bsv {enc_label(order[a])}", ("ok", f"{va.x} {va.z}"), "bsv", order[a])
-    add("c07meas ", safe(lambda: bitwise_commuting_pauli_measurement_circuit(frozenset())), "meas-empty", [])
+    for empty in (frozenset(), [], (), set()):
+        add("c07meas ", safe(lambda: bitwise_commuting_pauli_measurement_circuit(empty)), "meas-empty", type(empty).__name__)
     resp = ctx.driver(reqs)
     for (real, what, inp), r in zip(checks, resp):
-        ctx.case((what, repr(inp)), nontrivial=bool(inp), sample={"what": what, "input": str(inp)[:200], "model": r[:200]})
+        ctx.case((what.split(":")[0] if what.startswith("group") else what, repr(inp)), nontrivial=bool(inp),
+                 sample={"what": what, "input": str(inp)[:200], "model": r[:200]})
         ctx.traces += 1
         ctx.count("what", what)
         if what.startswith("group"):
@@ -168,8 +377,223 @@ def correspond(ctx: Ctx):
             ctx.disagree(what, inp, str(real)[:500], r[:500])
 
 
+def _qwc(a, b):
+    da, db = dict(a), dict(b)
+    return all(da[i] == db[i] for i in da if i in db)
+
+
+def judge_groups(ctx, tag, groups, content, desc):
+    """the grouping half of the property: every non-identity term of `content` in exactly one group, nothing else, qubit-wise commuting"""
+    ok = True
+    content_set = set(content)
+    for pl in content_set:
+        cnt = sum(1 for g in groups if pl in g)
+        if len(pl) and cnt != 1:
+            ctx.witness("partition:" + tag, f"term {pl} appears in {cnt} groups", desc)
+            ok = False
+    extra = set().union(*groups) - content_set if groups else set()
+    if extra:
+        ctx.witness("partition:" + tag, f"groups contain terms not in the input: {extra}", desc)
+        ok = False
+    for g in groups:
+        for a, b in itertools.combinations(list(g), 2):
+            if not _qwc(a, b):
+                ctx.witness("qwc:" + tag, f"{a} and {b} share a group but do not commute qubit-wise", desc)
+                ok = False
+    return ok
+
+
+def judge_measurement_local(ctx, rng, m, desc, n_bits=3):
+    """the measurement half of the property for any register width, qubit by qubit: V is a product of one-qubit gates, so
+    V P V† = ⊗_q V_q P_q V_q†; it must be Z on every support qubit of every member (gates elsewhere are harmless), and then
+    <b|V P V†|b> = (-1)^{#support qubits of P set in b}, which the member's reconstructor has to return for every b"""
+    import numpy as np
+
+    from oracle import dense
+
+    per = {}
+    try:
+        for g in m.measurement_circuit:
+            if len(g.target_indices) != 1 or len(g.control_indices):
+                ctx.witness("meas-local", f"measurement circuit contains the multi-qubit gate {g}", desc)
+                return False
+            q = int(g.target_indices[0])
+            per[q] = dense.local_matrix(g.name, tuple(g.params), tuple(g.pauli_ids), None) @ per.get(q, dense.I2)
+    except KeyError as e:
+        ctx.witness("meas-local", f"measurement circuit contains an unexpected gate {e}", desc)
+        return False
+    ok = True
+    for pl in m.pauli_set:
+        pairs = lab_pairs(pl)
+        for q, p in pairs:
+            v = per.get(q, dense.I2)
+            if np.max(np.abs(v @ dense.PAULI[p] @ v.conj().T - dense.PZ)) > 1e-9:
+                ctx.witness("meas-local", f"on qubit {q} the circuit does not rotate {'IXYZ'[p]} of {pl} to Z", desc)
+                ok = False
+        try:
+            rec = m.pauli_reconstructor_factory(pl)
+            for _ in range(n_bits):
+                bits = outcome_bits(rng, pairs)
+                got = rec(bits)
+                if got != parity_spec(pairs, bits):
+                    ctx.witness("reconstructor", f"reconstructor of {pairs} on outcome bits {bits} gives {got}, the eigenvalue is {parity_spec(pairs, bits)}",
+                                {"label": pairs, "bits": bits})
+                    ok = False
+        except Exception as e:  # noqa: BLE001
+            ctx.witness("reconstructor", f"reconstructor of {pairs} raises {type(e).__name__}: {e}", desc)
+            ok = False
+    return ok
+
+
+def cache_histories(ctx: Ctx, n_hist: int) -> int:
+    """call sequences on ONE CachedMeasurementFactory: the same Operator object again, the object mutated in place (term added /
+    removed / coefficient changed), another object with the same content, plain iterables of labels (line 79), a second factory
+    instance in between; after EVERY call the returned measurements are judged against the content handed in at that call"""
+    from quri_parts.core.measurement import (
+        CachedMeasurementFactory,
+        CommutablePauliSetMeasurementTuple,
+        bitwise_commuting_pauli_measurement,
+        bitwise_commuting_pauli_measurement_circuit,
+        bitwise_pauli_reconstructor_factory,
+        individual_pauli_measurement,
+    )
+    from quri_parts.core.operator import Operator, PauliLabel
+    from quri_parts.core.operator.grouping import sorted_injection_grouping
+
+    def sorted_injection_measurement(paulis):
+        return tuple(
+            CommutablePauliSetMeasurementTuple(pauli_set=s, measurement_circuit=bitwise_commuting_pauli_measurement_circuit(s),
+                                               pauli_reconstructor_factory=bitwise_pauli_reconstructor_factory)
+            for s in sorted_injection_grouping(paulis))
+
+    factories = {"bitwise": bitwise_commuting_pauli_measurement, "individual": individual_pauli_measurement,
+                 "sorted": sorted_injection_measurement}
+    rng = ctx.rng
+    n_eval = 0
+
+    def sets_of(meas):
+        return sorted(sorted(tuple(sorted(lab_pairs(pl))) for pl in m.pauli_set) for m in meas)
+
+    for _ in range(n_hist):
+        name = rng.choice(list(factories))
+        other = rng.choice([k for k in factories if k != name])
+        cf, cf_other = CachedMeasurementFactory(factories[name]), CachedMeasurementFactory(factories[other])
+        pool_idx = rng.choice([list(range(3)), list(range(4)), list(range(6)), None, list(range(62, 66))])
+        pool = list(dict.fromkeys(mk_label(l, rng.choice(LABEL_FORMS)) for l in rich_labels(rng, 12, pool=pool_idx, maxk=4)))
+
+        def coef():
+            # mostly pairwise distinct magnitudes (the order sorted injection uses is then determined), sometimes ties / ints
+            if rng.random() < 0.75:
+                return round(rng.uniform(0.1, 9.0), 6) * rng.choice([1, -1, 1j, -1j])
+            return rng.choice([1, 2.5, -3, 1j, 0.5 - 0.5j, 7])
+
+        op = Operator()
+        for pl in rng.sample(pool, min(len(pool), rng.randint(2, 6))):
+            op[pl] = coef()
+        history = []
+        seen_keys = set()
+        for _step in range(rng.randint(3, 9)):
+            action = rng.choice(["same", "same", "add", "add", "del", "coef", "coef", "replace", "copy", "iterable", "unit-op", "other", "fresh"])
+            arg = op
+            if action == "add":
+                op[rng.choice(pool)] = coef()
+            elif action == "del" and len(op) > 1:
+                del op[rng.choice(list(op.keys()))]
+            elif action == "coef" and len(op):
+                # same terms, other coefficients: one rescaled, or the coefficients handed round (largest <-> smallest, …)
+                if rng.random() < 0.4:
+                    k = rng.choice(list(op.keys()))
+                    op[k] = op[k] * rng.choice([2, -1, 1j, 10, 0.01]) + rng.choice([0, 0, 1])
+                else:
+                    ks, vs = list(op.keys()), list(op.values())
+                    vs = vs[::-1] if rng.random() < 0.5 else rng.sample(vs, len(vs))
+                    for k, v in zip(ks, vs):
+                        op[k] = v
+            elif action == "replace" and len(op):
+                k = rng.choice(list(op.keys()))
+                c = op.pop(k)
+                op[rng.choice(pool)] = c  # same number of terms, same coefficient
+            elif action == "copy":
+                items = list(op.items())
+                rng.shuffle(items)
+                arg = Operator(dict(items))  # equal content, other object, other key order
+            elif action == "iterable":
+                labs = rng.sample(pool, min(len(pool), rng.randint(1, 5)))
+                if rng.random() < 0.3:
+                    labs.append(labs[0])
+                arg, it_order = as_iterable(labs, rng.choice(ITER_FORMS))
+                content = list(dict.fromkeys(it_order))  # the order in which the wrapper sees the labels
+            elif action == "unit-op":
+                labs = rng.sample(pool, min(len(pool), rng.randint(1, 5)))
+                arg = Operator({p: 1 + 0j for p in labs})  # the key a plain iterable of the same labels gets
+            elif action == "other":
+                try:
+                    cf_other(op)
+                    cf_other(list(op.keys()))
+                except Exception:  # noqa: BLE001
+                    pass
+            elif action == "fresh":
+                op = Operator({pl: coef() for pl in rng.sample(pool, min(len(pool), rng.randint(1, 6)))})
+                arg = op
+            if isinstance(arg, Operator):
+                content = list(arg.keys())
+                key = frozenset(arg.items())
+                magnitudes = [abs(v) for v in arg.values()]
+                shown = {str(k): str(v) for k, v in arg.items()}
+            elif action == "iterable":
+                key = frozenset((p, 1 + 0j) for p in content)
+                magnitudes = [1.0] * len(content)
+                shown = [str(p) for p in content]
+            history.append({"action": action, "arg": type(arg).__name__, "content": shown})
+            desc = {"wrapped": name, "history": list(history)}
+            n_eval += 1
+            ctx.count("cache_action", action)
+            ctx.case(("cache", name, action, repr(shown)), nontrivial=True)
+            try:
+                meas = list(cf(arg))
+            except Exception as e:  # noqa: BLE001
+                ctx.witness("measurement-raises", f"CachedMeasurementFactory({name}) raises {type(e).__name__}: {e}", desc)
+                break
+            groups = [m.pauli_set for m in meas]
+            good = judge_groups(ctx, "cached-" + name, groups, content, desc)
+            if not good:
+                ctx.witness("cache-stale", "CachedMeasurementFactory returned groups that do not partition the terms handed in at this call", desc)
+            for m in meas:
+                judge_measurement_local(ctx, rng, m, desc, n_bits=2)
+            # "runs the same grouping algorithm": where the wrapped strategy's result is determined by the content (individual;
+            # sorted injection with distinct |coefficients|; bitwise on the first call with this content) it must be that result
+            first = key not in seen_keys
+            seen_keys.add(key)
+            determined = name == "individual" or (name == "sorted" and len(set(magnitudes)) == len(magnitudes)) or (name == "bitwise" and first)
+            if determined and good:
+                try:
+                    ref = factories[name](Operator(dict(arg.items())) if isinstance(arg, Operator) else list(content))
+                    if sets_of(meas) != sets_of(ref):
+                        ctx.disagree("cached-wrapper-vs-wrapped:" + name, desc, str(sets_of(meas))[:400], str(sets_of(ref))[:400])
+                except Exception:  # noqa: BLE001
+                    pass
+            # every entry the cache holds is a sound grouping of the terms in its key (it is what a later call with that content gets)
+            if rng.random() < 0.5:
+                try:
+                    snapshot = cf.cached_groups
+                    for k, v in list(snapshot.items()):
+                        if not all(isinstance(e, tuple) and len(e) == 2 and isinstance(e[0], PauliLabel) for e in k):
+                            ctx.disagree("cached_groups", desc, f"key {str(k)[:200]}", "key = frozenset of (PauliLabel, coefficient)")
+                            break
+                        kl = [pl for pl, _ in k]
+                        if not judge_groups(ctx, "cache-entry", [m.pauli_set for m in v], kl, desc):
+                            break
+                    ctx.count("cached_groups_entries", str(min(len(snapshot), 9)))
+                    if key not in snapshot:
+                        ctx.count("cached_groups_key_missing")
+                    snapshot.clear()  # the caller's copy: emptying it never makes a later result wrong
+                except Exception as e:  # noqa: BLE001
+                    ctx.disagree("cached_groups", desc, f"{type(e).__name__}: {e}"[:300], "dict: content key -> measurements")
+    return n_eval
+
+
 def validate(ctx: Ctx, budget_s: float):
-    """the property on the real code: partition, qubit-wise commutation, measurement soundness (dense, n ≤ 5)"""
+    """the property on the real code: partition, qubit-wise commutation, measurement soundness (dense for n ≤ 5, qubit-local for any width)"""
     import time
 
     import numpy as np
@@ -191,69 +615,31 @@ def validate(ctx: Ctx, budget_s: float):
     t0 = time.time()
     n_eval = 0
 
-    def qwc(a, b):
-        da, db = dict(a), dict(b)
-        return all(da[i] == db[i] for i in da if i in db)
-
     def pmat(n, pairs):
         m = np.eye(1 << n, dtype=complex)
         for i, p in pairs:
             m = dense.embed(n, [i], dense.PAULI[p]) @ m
         return m
 
-    while time.time() - t0 < budget_s:
-        n = rng.randint(1, 5)
-        labs = random_labels(rng, n, rng.choice([1, 2, 3, 6, 12]))
-        plabs = [PauliLabel(l) for l in labs]
-        op = Operator({pl: complex(rng.uniform(-1, 1), rng.uniform(-1, 1)) for pl in plabs})
-        strat = rng.choice(["bitwise", "sorted", "individual", "bitwise-op", "sorted-op"])
-        fn = {"bitwise": bitwise_pauli_grouping, "sorted": sorted_injection_grouping, "individual": individual_pauli_grouping,
-              "bitwise-op": bitwise_pauli_grouping, "sorted-op": sorted_injection_grouping}[strat]
-        n_eval += 1
-        desc = {"strategy": strat, "labels": labs}
-        try:
-            groups = list(fn(op if strat.endswith("-op") else plabs))
-        except Exception as e:  # noqa: BLE001
-            ctx.witness("grouping-raises:" + strat, f"{type(e).__name__}: {e}", desc)
-            continue
-        for pl in set(plabs):
-            cnt = sum(1 for g in groups if pl in g)
-            if len(pl) and cnt != 1:
-                ctx.witness("partition:" + strat, f"term {pl} appears in {cnt} groups", desc)
-        extra = set().union(*groups) - set(plabs) if groups else set()
-        if extra:
-            ctx.witness("partition:" + strat, f"groups contain terms not in the input: {extra}", desc)
-        for g in groups:
-            for a, b in itertools.combinations(list(g), 2):
-                if not qwc(a, b):
-                    ctx.witness("qwc:" + strat, f"{a} and {b} share a group but do not commute qubit-wise", desc)
-        # measurement scheme
-        fac = rng.choice([bitwise_commuting_pauli_measurement, individual_pauli_measurement, CachedMeasurementFactory(bitwise_commuting_pauli_measurement)])
-        try:
-            meas = list(fac(op))
-            if rng.random() < 0.3 and isinstance(fac, CachedMeasurementFactory):
-                meas = list(fac(op))  # cached path
-        except Exception as e:  # noqa: BLE001
-            ctx.witness("measurement-raises", f"{type(e).__name__}: {e}", desc)
-            continue
-        covered = set()
-        for m in meas:
-            v = dense.circuit_unitary(n, list(m.measurement_circuit))
-            for pl in m.pauli_set:
-                covered.add(pl)
-                rec = m.pauli_reconstructor_factory(pl)
-                mat = v @ pmat(n, [(int(i), int(p)) for i, p in pl]) @ v.conj().T
-                diag = np.diag(mat)
-                if np.max(np.abs(mat - np.diag(diag))) > 1e-9:
-                    ctx.witness("meas-not-diagonal", f"V P V† is not diagonal for {pl}", desc)
-                    break
-                for b in range(1 << n):
-                    if abs(diag[b] - rec(b)) > 1e-9:
-                        ctx.witness("reconstructor", f"<{b}|V P V†|{b}> = {diag[b]} but the reconstructor gives {rec(b)} for {pl}", desc)
-                        break
-        missing = {pl for pl in plabs if len(pl)} - covered
-        if missing:
-            ctx.witness("measurement-missing-term", f"terms without a measurement: {missing}", desc)
+    def coefficients(k):
+        """coefficient orderings incl. ties (equal |c|: the sort order is then unspecified, the property is not), zeros, ints"""
+        mode = rng.choice(["random", "random", "ties", "all-equal", "ints", "zeros", "asc", "desc"])
+        ctx.count("validate_coefs", mode)
+        if mode == "ties":
+            return [rng.choice([1.0, -1.0, 1j, 2.0, -2j]) for _ in range(k)]
+        if mode == "all-equal":
+            return [1.0] * k
+        if mode == "ints":
+            return [rng.randint(-3, 3) or 1 for _ in range(k)]
+        if mode == "zeros":
+            return [rng.choice([0.0, 0.0, 1.0, -0.5]) for _ in range(k)]
+        if mode == "asc":
+            return [float(i + 1) for i in range(k)]
+        if mode == "desc":
+            return [float(k - i) for i in range(k)]
+        return [complex(rng.uniform(-1, 1), rng.uniform(-1, 1)) for _ in range(k)]
+
+    # fixed-count parts first (reproducible per seed; the timed search below consumes the generator at a machine-dependent rate)
     # cache is keyed by content
     cf = CachedMeasurementFactory(bitwise_commuting_pauli_measurement)
     op = Operator({PauliLabel([(0, 1)]): 1.0, PauliLabel([(0, 3), (1, 3)]): 2.0})
@@ -265,18 +651,96 @@ def validate(ctx: Ctx, budget_s: float):
     n_eval += 1
     if want != got:
         ctx.witness("cache-stale", "CachedMeasurementFactory returned the groups of the content before mutation", {"after_mutation": str(op)})
+    with ctx.timed("cache_histories"):
+        n_hist = ctx.n(150, 3000) * (1 if budget_s <= 120 else 3)
+        n_cache = cache_histories(ctx, n_hist)
+    t0 = time.time()
+    fns = {"bitwise": bitwise_pauli_grouping, "sorted": sorted_injection_grouping, "individual": individual_pauli_grouping}
+    wide_every = 3
+    while time.time() - t0 < budget_s:
+        wide = n_eval % wide_every == wide_every - 1  # any-width instances judged qubit-locally
+        if wide:
+            n = None
+            labs = rich_labels(rng, rng.choice([1, 2, 3, 6, 12, 25]), pool=rng.choice([None, list(range(28, 36)), list(range(60, 68))]))
+        else:
+            n = rng.randint(1, 5)
+            labs = random_labels(rng, n, rng.choice([1, 2, 3, 6, 12]))
+        plabs = [mk_label(l, rng.choice(LABEL_FORMS)) for l in labs]
+        uniq = list(dict.fromkeys(plabs))
+        op = Operator(dict(zip(uniq, coefficients(len(uniq)))))
+        base = rng.choice(["bitwise", "sorted", "individual"])
+        form = rng.choice(["op", "op"] + ITER_FORMS)
+        strat = f"{base}-op" if form == "op" else base
+        n_eval += 1
+        desc = {"strategy": strat, "labels": labs, "input_form": form}
+        if form == "op":
+            arg, content = op, list(op.keys())
+            desc["coefficients"] = [str(v) for v in op.values()]
+        else:
+            arg, content = as_iterable(plabs, form)
+        ctx.count("validate_form", form)
+        try:
+            groups = list(fns[base](arg))
+        except Exception as e:  # noqa: BLE001
+            ctx.witness("grouping-raises:" + strat, f"{type(e).__name__}: {e}", desc)
+            continue
+        judge_groups(ctx, strat, groups, content, desc)
+        # measurement scheme, Operator and plain-iterable entry points, cached wrapper included (second call = cached path)
+        facname = rng.choice(["bitwise", "individual", "cached-bitwise", "cached-individual"])
+        fac = {"bitwise": bitwise_commuting_pauli_measurement, "individual": individual_pauli_measurement,
+               "cached-bitwise": CachedMeasurementFactory(bitwise_commuting_pauli_measurement),
+               "cached-individual": CachedMeasurementFactory(individual_pauli_measurement)}[facname]
+        mform = rng.choice(["op", "op"] + ITER_FORMS)
+        desc = {"factory": facname, "labels": labs, "input_form": mform}
+        ctx.count("validate_meas_form", mform)
+        try:
+            marg = op if mform == "op" else as_iterable(plabs, mform)[0]
+            meas = list(fac(marg))
+            if rng.random() < 0.4 and facname.startswith("cached"):
+                marg = op if mform == "op" else as_iterable(plabs, mform)[0]
+                meas = list(fac(marg))  # cached path
+        except Exception as e:  # noqa: BLE001
+            ctx.witness("measurement-raises", f"{type(e).__name__}: {e}", desc)
+            continue
+        judge_groups(ctx, "meas-" + facname, [m.pauli_set for m in meas], uniq, desc)
+        covered = set()
+        for m in meas:
+            covered |= set(m.pauli_set)
+            judge_measurement_local(ctx, rng, m, desc)
+            if wide:
+                continue
+            v = dense.circuit_unitary(n, list(m.measurement_circuit))
+            for pl in m.pauli_set:
+                rec = m.pauli_reconstructor_factory(pl)
+                mat = v @ pmat(n, lab_pairs(pl)) @ v.conj().T
+                diag = np.diag(mat)
+                if np.max(np.abs(mat - np.diag(diag))) > 1e-9:
+                    ctx.witness("meas-not-diagonal", f"V P V† is not diagonal for {pl}", desc)
+                    break
+                for b in range(1 << n):
+                    if abs(diag[b] - rec(b)) > 1e-9:
+                        ctx.witness("reconstructor", f"<{b}|V P V†|{b}> = {diag[b]} but the reconstructor gives {rec(b)} for {pl}", desc)
+                        break
+        missing = {pl for pl in plabs if len(pl)} - covered
+        if missing:
+            ctx.witness("measurement-missing-term", f"terms without a measurement: {missing}", desc)
+    ctx.extra["oracle_validation"] = {"evaluations": n_eval, "cache_history_calls": n_cache}
     ctx.evaluations += n_eval
-    ctx.extra["oracle_validation"] = {"evaluations": n_eval}
     ctx.search_budget_s = budget_s
 
 
 def run(ctx: Ctx, replay=None) -> int:
     ctx.rule = ("cases = (function, input in the real iteration order): grouping strategies on label collections (incl. all permutations of small "
-                "collections, duplicates, identity, indices up to 70), bsv / bitwise-commute, measurement circuit, reconstructor; real vs Lean model "
-                "exactly (groups as sets of sets); distinct = distinct (function, input)")
+                "collections, duplicates, identity, supports up to 12 qubits, indices on the 32/64/128-bit boundaries; labels built from ints, "
+                "SinglePauli members, strings, index/pauli lists; lists, tuples, one-shot generators, sets, key views and Operators with int / float / "
+                "complex coefficients in ascending, descending and shuffled |c| order), bsv / bitwise-commute, measurement circuit (frozenset / list / "
+                "tuple / set / key view, repeated members), reconstructor (outcomes of any width, Python and numpy integers, interleaved closures); "
+                "real vs Lean model exactly (groups as sets of sets); CachedMeasurementFactory call histories (same object, in-place mutation, equal "
+                "content in another object, plain iterables, second instance) judged after every call; distinct = distinct (function, input)")
     ctx.trusted = c01.TRUSTED[:1] + [
         "bsv model uses bitwise OR where the code adds 1<<i (equal on valid labels; compared bit-exactly each run)",
-        "measurement soundness on the full register (tensor lifting of the per-qubit kernel facts) validated per instance with dense matrices for n ≤ 5",
+        "measurement soundness on the full register (tensor lifting of the per-qubit kernel facts) validated per instance with dense matrices for n ≤ 5 "
+        "and qubit-locally (2x2 matrices per support qubit + parity of the support bits) for any width",
         "Found/Gate.lean matrices for H, Sdag, Pauli (cross-checked in C01)",
     ]
     ctx.assumptions = ["labels are valid (one Pauli per index)"]
